@@ -187,7 +187,7 @@ func checkC03(c *Ctx) {
 		// carry-in both ways x every preserved bit both ways, plus single-bit patterns
 		fs = []uint8{0x00, 0xFF, 0x01, 0xFE, 0xC4, 0x3B, 0x10, 0x02, 0x28, 0xD7, 0x80, 0x40, 0x04, 0x08, 0x20, 0x11}
 	}
-	c.Rule = fmt.Sprintf("%d encodings (ADD HL/IX/IY,ss; ADC/SBC HL,ss; INC/DEC ss/IX/IY). (a) boundary lattice: both operands over L16 (%d values: <=2 bits set or clear, nibble/sign boundaries with neighbours) x %d F values, complete CPU state compared with first-principles 17-bit arithmetic; (b) thorough only: complete 2^32 operand pairs x F in {00,FF} for the two-register forms and all 2^16 x 256 F for doubling forms and INC/DEC. Non-trivial = result differs from the destination operand or F changes (counted).", len(encs), len(L), len(fs))
+	c.Rule = fmt.Sprintf("%d encodings (ADD HL/IX/IY,ss; ADC/SBC HL,ss; INC/DEC ss/IX/IY). (a) boundary lattice: both operands over L16 (%d values: <=2 bits set or clear, nibble/sign boundaries with neighbours) x %d F values, complete CPU state compared with first-principles 17-bit arithmetic; (b) complete space: every destination value; quick: x every L16 source value x F in {00,FF} for the two-register forms and all 2^16 x 16 F for doubling forms and INC/DEC; thorough: complete 2^32 operand pairs x F in {00,FF} and all 2^16 x 256 F. Non-trivial = result differs from the destination operand or F changes (counted).", len(encs), len(L), len(fs))
 	c.Bound = "L16 lattice" + map[bool]string{true: "", false: " + complete 2^32 x {00,FF}"}[c.Quick()]
 	var evals, nontriv [16 * 8]int64 // indexed by wi*8: one cache line per worker
 	// (a) lattice
@@ -224,7 +224,7 @@ func checkC03(c *Ctx) {
 	full := int64(0)
 	var capped int32
 	var completed []string
-	if !c.Quick() {
+	{
 		for _, e := range encs {
 			if c.NViolations() > 0 {
 				break
@@ -237,7 +237,12 @@ func checkC03(c *Ctx) {
 			doubling := in.Src16 == in.Dst16 || in.Src16 == refz80.RNone
 			fset := []uint8{0x00, 0xFF}
 			if doubling {
-				fset = c02FSet(false)
+				fset = c02FSet(c.Quick())
+			}
+			// quick: every destination value x the boundary lattice as source; thorough: every pair
+			var bvals []uint16
+			if c.Quick() && !doubling {
+				bvals = L
 			}
 			var failed int32
 			runners := make([]*c03Runner, 16)
@@ -254,11 +259,15 @@ func checkC03(c *Ctx) {
 					bmax := 65536
 					if doubling {
 						bmax = 1
+					} else if bvals != nil {
+						bmax = len(bvals)
 					}
 					for bi := 0; bi < bmax; bi++ {
 						b := uint16(bi)
 						if doubling {
 							b = a
+						} else if bvals != nil {
+							b = bvals[bi]
 						}
 						for _, f := range fset {
 							cpu.PC = 0x0100
